@@ -261,6 +261,37 @@ def run_monitors(cfg, items, endl, props=None):
             ks = [k for (_, k, _) in it["kvs"]]
             addressed.update(ks)
             nres = int(o[1:]) if o.startswith("n") else -1
+            # C09 for a range call: when no eviction can happen during the call (room for every new key, or an
+            # unbounded container) the element-wise outcome is determined by which keys are live before it
+            if pre is not None and post is not None and nres >= 0:
+                newk = [k for k in dict.fromkeys(ks) if k not in pre_found]
+                # (tlru/utlru with an expired entry still resident: allow::update over it may go either way — skip)
+                if (kind in ("ut_map", "ut_set") or pre["size"] + len(newk) <= cfg["cap"]) and \
+                        not (kind in ("tlru", "utlru") and pre["size"] != len(pre_found)) and \
+                        not (kind in TTLK and any(ttl_of(t_) == 0 for (t_, _, _) in it["kvs"]) and kind != "tlru"):
+                    present, exp_n = set(pre_found), 0
+                    a_ins, a_upd = bool(it["a"] & 1), bool(it["a"] & 2)
+                    for (t_, k, _) in it["kvs"]:
+                        dead_at_once = kind in TTLK and ttl_of(t_) == 0      # a TTL-0 write is expired at the same instant
+                        if k in present:
+                            exp_n += 1 if a_upd else 0
+                            if a_upd and dead_at_once:
+                                present.discard(k)
+                        elif a_ins:
+                            exp_n += 1
+                            if not dead_at_once:
+                                present.add(k)
+                    if nres != exp_n:
+                        viol("C09", i, "%s with allow=%d returned %d; element by element %d of its writes are allowed (live before: %s)" % (
+                            n, it["a"], nres, exp_n, sorted(pre_found & set(ks))))
+                    if not a_upd:
+                        for k in pre_found & set(ks):
+                            if vonly(pre["view"][k]) != vonly(post["view"].get(k)):
+                                viol("C09", i, "%s with allow=%d (no update) changed live key %d: %s -> %s" % (n, it["a"], k, pre["view"][k], post["view"].get(k)))
+                    if not a_ins:
+                        for k in newk:
+                            if post["view"].get(k) is not None:
+                                viol("C09", i, "%s with allow=%d (no insert) created key %d" % (n, it["a"], k))
             for (t, k, v) in it["kvs"]:
                 lw.setdefault(k, set()).add(v)
                 dl[k] = None
